@@ -214,13 +214,27 @@ enum HObs {
     Multi { flen: usize, fcks: String, err: bool },
     Panic,
 }
+/// run-length notation `rl [(size, count); ..]` (Run_C11.v) for long lists
+fn g_rl(sizes: &[usize]) -> String {
+    if sizes.len() <= 8 {
+        return g_list(sizes, |n| n.to_string());
+    }
+    let mut runs: Vec<(usize, usize)> = vec![];
+    for &n in sizes {
+        match runs.last_mut() {
+            Some((m, k)) if *m == n => *k += 1,
+            _ => runs.push((n, 1)),
+        }
+    }
+    format!("(rl {})", g_list(&runs, |(n, k)| format!("({},{})", n, k)))
+}
 fn g_hobs(h: &HObs) -> String {
     match h {
         HObs::Refused(st) => format!("(HRefused {})", st),
         HObs::Buf(l, c) => format!("(HBuf {} {})", l, c),
         HObs::Stream { sizes, cks, err } => format!(
             "(HStream {} {} {})",
-            g_list(sizes, |n| n.to_string()),
+            g_rl(sizes),
             cks,
             g_opt(err, |e| e.to_string())
         ),
@@ -679,10 +693,13 @@ fn g_cuts(cuts: &[Cut]) -> String {
     if cuts.iter().all(|c| matches!(c, Cut::D(_))) {
         format!(
             "(ds {})",
-            g_list(cuts, |c| match c {
-                Cut::D(n) => n.to_string(),
-                _ => unreachable!(),
-            })
+            g_rl(&cuts
+                .iter()
+                .map(|c| match c {
+                    Cut::D(n) => *n,
+                    _ => unreachable!(),
+                })
+                .collect::<Vec<_>>())
         )
     } else {
         g_list(cuts, |c| match c {
